@@ -157,11 +157,12 @@ def editH (σ : Nat → Bool) (g : GObjH) : GEdit → M (Int × GObjH)
   | .detail d => do
     -- libwifi_add_action_detail
     if d.length = 0 then return (g.o.detailLen, g)
+    if d.length > 255 - g.o.detailLen then return (-EINVAL, g)
     let p ← if g.o.detailLen ≠ 0 then realloc σ g.detailPtr (d.length + g.o.detailLen) else malloc σ d.length
     match p with
     | none => pure (-EINVAL, g)
     | some q =>
-      let nl := (g.o.detailLen + d.length) % 256
+      let nl := g.o.detailLen + d.length
       pure (nl, { g with detailPtr := some q, o := { g.o with detail := (g.o.detail.take g.o.detailLen) ++ d, detailLen := nl } })
   | .freeDetail => do
     -- libwifi_free_action_detail: release only when something is stored
